@@ -208,16 +208,16 @@ func writeListOrArray(e *Encoder, d *decodeState, ifWriteTag bool, tagName strin
 		if d.opcode != scanListValue && d.opcode != scanEndValue { // TAG_List<TAG_String>
 			panic(phasePanicMsg)
 		}
-		var tagType byte
+		var elemType byte
 		for {
 			t, v, err := parseLiteral(literal)
 			if err != nil {
-				return tagType, err
+				return TagList, err
 			}
-			if tagType == 0 {
-				tagType = t
+			if elemType == 0 {
+				elemType = t
 			}
-			if t != tagType {
+			if t != elemType {
 				return TagList, d.error("different TagType in List")
 			}
 			err = writeLiteralPayload(e2, v)
@@ -240,6 +240,12 @@ func writeListOrArray(e *Encoder, d *decodeState, ifWriteTag bool, tagName strin
 				panic(phasePanicMsg)
 			}
 			d.scanWhile(scanSkipSpace)
+			if d.opcode == scanError {
+				return TagList, d.error(d.scan.errContext)
+			}
+			if d.opcode != scanBeginLiteral { // '[' or '{' after a literal element
+				return TagList, d.error("different TagType in List")
+			}
 			start = d.readIndex()
 			if d.scanWhile(scanContinue); d.opcode == scanError {
 				return tagType, d.error(d.scan.errContext)
@@ -247,12 +253,13 @@ func writeListOrArray(e *Encoder, d *decodeState, ifWriteTag bool, tagName strin
 			literal = d.data[start:d.readIndex()]
 		}
 
-		if err := e.writeListHeader(tagType, count); err != nil {
-			return tagType, err
+		if err := e.writeListHeader(elemType, count); err != nil {
+			return TagList, err
 		}
 		if _, err := e.w.Write(buf.Bytes()); err != nil {
-			return tagType, err
+			return TagList, err
 		}
+		tagType = TagList
 	case scanBeginList: // TAG_List<TAG_List>
 		if ifWriteTag {
 			err = writeTag(e.w, TagList, tagName)
@@ -268,9 +275,16 @@ func writeListOrArray(e *Encoder, d *decodeState, ifWriteTag bool, tagName strin
 			if d.opcode != scanBeginList {
 				return TagList, d.error("different TagType in List")
 			}
-			elemType, err = writeListOrArray(e2, d, false, "")
+			var t byte
+			t, err = writeListOrArray(e2, d, false, "")
 			if err != nil {
 				return tagType, err
+			}
+			if count == 0 {
+				elemType = t
+			}
+			if t != elemType { // e.g. [[1],[B;1b]]
+				return TagList, d.error("different TagType in List")
 			}
 			count++
 			if d.opcode == scanSkipSpace {
@@ -296,6 +310,7 @@ func writeListOrArray(e *Encoder, d *decodeState, ifWriteTag bool, tagName strin
 		if _, err = e.w.Write(buf.Bytes()); err != nil {
 			return
 		}
+		tagType = TagList
 	case scanBeginCompound: // TAG_List<TAG_Compound>
 		if ifWriteTag {
 			err = writeTag(e.w, TagList, tagName)
@@ -342,6 +357,12 @@ func writeListOrArray(e *Encoder, d *decodeState, ifWriteTag bool, tagName strin
 		if _, err = e.w.Write(buf.Bytes()); err != nil {
 			return
 		}
+		tagType = TagList
+	default: // scanError (e.g. "[", "[,]", "[}") or any other unexpected token
+		if d.opcode == scanError {
+			return TagList, d.error(d.scan.errContext)
+		}
+		return TagList, d.error("unexpected token in List")
 	}
 	d.scanNext()
 	return
